@@ -825,6 +825,12 @@ def _parse(text: str) -> Union[ast.Tree, None]:
     parse_tree = parser.stored_definition()
     if listener.error:
         return None
+    if stream.LA(1) != antlr4.Token.EOF:
+        # stored_definition does not end with EOF in the grammar, so the parser
+        # stops silently at the first token that cannot start another class.
+        # Text left over is a syntax error, too.
+        logger.error("Syntax error: unexpected input at token %s", stream.LT(1))
+        return None
     ast_listener = ASTListener()
     parse_walker = antlr4.ParseTreeWalker()
     parse_walker.walk(ast_listener, parse_tree)
